@@ -279,6 +279,22 @@ func loadProgram(o LoadOpts) (*Program, error) {
 			}
 		}
 	}
+	// prog.Pkgs is a map: fix the order of lemmas and axioms, which is the order of the assertions in every SMT
+	// file (solvers are sensitive to it; a run-to-run difference made one obligation flaky)
+	byPos := func(xs []*LemmaRef) {
+		sort.SliceStable(xs, func(i, j int) bool {
+			a, b := xs[i], xs[j]
+			if a.Pkg.Path != b.Pkg.Path {
+				return a.Pkg.Path < b.Pkg.Path
+			}
+			if a.C.File != b.C.File {
+				return a.C.File < b.C.File
+			}
+			return a.C.Line < b.C.Line
+		})
+	}
+	byPos(prog.Lemmas)
+	byPos(prog.Axioms)
 	return prog, nil
 }
 
@@ -382,6 +398,11 @@ func genSynth(prog *Program, p *Pkg) (string, error) {
 		}
 		for _, c := range sf.Contracts {
 			fd := p.funcs[c.Name]
+			if fd == nil && c.Primary == "SWEEP" {
+				// exploration sweep (tools/sweepgen.py lists functions textually): not a function of this build
+				c.Assumed = true
+				continue
+			}
 			if fd == nil {
 				return "", &DriftError{Func: p.Path + "." + c.Name, Msg: "function not found"}
 			}
@@ -437,6 +458,23 @@ func genSynth(prog *Program, p *Pkg) (string, error) {
 				fmt.Fprintf(&body, "func %s(%s) any { return %s }\n", m.GoFn, strings.Join(reqParams, ", "), m.Text)
 			}
 			loops := loopsOf(fd.Body)
+			if c.Frame && !c.Assumed && c.Mode != "opaque" && fd.Body != nil {
+				// automatic loop invariants (checked like written ones): a local slice that is only ever built by
+				// append / make / literals is the function's own accumulator - nil or freshly allocated
+				for i, loop := range loops {
+					for _, nm := range ownedAccumulators(p, fd, loop) {
+						ge, err := translateSpecExpr("elemsfresh(" + nm + ")")
+						if err != nil {
+							continue
+						}
+						pr := c.FrameProp
+						if pr == "" {
+							pr = c.Primary
+						}
+						c.Loops[i] = append(c.Loops[i], &Clause{Kind: "invariant", Prop: pr, Text: "elemsfresh(" + nm + ")  (automatic: local accumulator)", GoExpr: ge, Loop: i, File: c.File, Line: c.Line})
+					}
+				}
+			}
 			var lns []int
 			for n := range c.Loops {
 				lns = append(lns, n)
@@ -600,11 +638,14 @@ func (g *synthGen) freeLocals(goExpr string, loop ast.Stmt, fd *ast.FuncDecl) (p
 			if bound[x.Name] > 0 || seen[x.Name] {
 				return
 			}
-			if x.Name == "visited" || x.Name == "idx" || x.Name == "ranged" {
+			if x.Name == "visited" || x.Name == "idx" || x.Name == "ranged" || x.Name == "outeridx" {
 				if _, obj := scope.LookupParent(x.Name, bodyPos); obj == nil {
 					seen[x.Name] = true
 					if x.Name == "idx" {
 						params = append(params, "idx int")
+					} else if x.Name == "outeridx" {
+						// iteration count of the enclosing range loop
+						params = append(params, "outeridx int")
 					} else if x.Name == "ranged" {
 						// the value of the range operand (evaluated once, before the first iteration)
 						if rangeX == nil {
@@ -674,4 +715,123 @@ func (g *synthGen) freeLocals(goExpr string, loop ast.Stmt, fd *ast.FuncDecl) (p
 	}
 	walk(e)
 	return
+}
+
+// ownedAccumulators: names of local slice variables, declared before the loop, that the loop body extends with
+// x = append(x, ...) and whose every assignment in the function is an append to itself, nil, make or a literal.
+func ownedAccumulators(p *Pkg, fd *ast.FuncDecl, loop ast.Stmt) []string {
+	objOf := func(e ast.Expr) types.Object {
+		id, ok := unparen(e).(*ast.Ident)
+		if !ok {
+			return nil
+		}
+		if o := p.Info.Uses[id]; o != nil {
+			return o
+		}
+		return p.Info.Defs[id]
+	}
+	isSelfAppend := func(o types.Object, rhs ast.Expr) bool {
+		call, ok := unparen(rhs).(*ast.CallExpr)
+		if !ok || len(call.Args) == 0 {
+			return false
+		}
+		id, ok := unparen(call.Fun).(*ast.Ident)
+		if !ok || id.Name != "append" {
+			return false
+		}
+		if _, isBuiltin := p.Info.Uses[id].(*types.Builtin); !isBuiltin {
+			return false
+		}
+		return objOf(call.Args[0]) == o
+	}
+	cands := map[types.Object]bool{}
+	var body ast.Node
+	switch l := loop.(type) {
+	case *ast.ForStmt:
+		body = l.Body
+	case *ast.RangeStmt:
+		body = l.Body
+	}
+	ast.Inspect(body, func(n ast.Node) bool {
+		as, ok := n.(*ast.AssignStmt)
+		if !ok || len(as.Lhs) != len(as.Rhs) {
+			return true
+		}
+		for i, l := range as.Lhs {
+			o := objOf(l)
+			v, isVar := o.(*types.Var)
+			if !isVar || v.IsField() || o.Pos() < fd.Body.Pos() || o.Pos() > fd.Body.End() || o.Pos() >= loop.Pos() {
+				continue
+			}
+			if _, isSlice := v.Type().Underlying().(*types.Slice); isSlice && isSelfAppend(o, as.Rhs[i]) {
+				cands[o] = true
+			}
+		}
+		return true
+	})
+	if len(cands) == 0 {
+		return nil
+	}
+	okRHS := func(o types.Object, rhs ast.Expr) bool {
+		if isSelfAppend(o, rhs) {
+			return true
+		}
+		switch r := unparen(rhs).(type) {
+		case *ast.Ident:
+			return r.Name == "nil"
+		case *ast.CompositeLit:
+			return true
+		case *ast.CallExpr:
+			if id, ok := unparen(r.Fun).(*ast.Ident); ok && id.Name == "make" {
+				_, isBuiltin := p.Info.Uses[id].(*types.Builtin)
+				return isBuiltin
+			}
+		}
+		return false
+	}
+	ast.Inspect(fd.Body, func(n ast.Node) bool {
+		switch x := n.(type) {
+		case *ast.AssignStmt:
+			for i, l := range x.Lhs {
+				o := objOf(l)
+				if o == nil || !cands[o] {
+					continue
+				}
+				if len(x.Lhs) != len(x.Rhs) || !okRHS(o, x.Rhs[i]) {
+					delete(cands, o)
+				}
+			}
+		case *ast.ValueSpec:
+			for i, nm := range x.Names {
+				o := p.Info.Defs[nm]
+				if o == nil || !cands[o] {
+					continue
+				}
+				if len(x.Values) != 0 && (len(x.Values) != len(x.Names) || !okRHS(o, x.Values[i])) {
+					delete(cands, o)
+				}
+			}
+		case *ast.UnaryExpr:
+			if x.Op == token.AND {
+				if o := objOf(x.X); o != nil {
+					delete(cands, o)
+				}
+			}
+		case *ast.RangeStmt:
+			for _, e := range []ast.Expr{x.Key, x.Value} {
+				if e != nil {
+					if o := objOf(e); o != nil {
+						delete(cands, o)
+					}
+				}
+			}
+		}
+		return true
+	})
+	var out []string
+	for o := range cands {
+		out = append(out, o.Name())
+	}
+	sort.Strings(out)
+	return out
 }
